@@ -50,6 +50,13 @@ class JL(list):
         return len(self)
     def First(self):
         return self[0]
+# helpers with free variables of their own (module globals q, j, G_INT): at a use site whose
+# binders have the SAME names the helper still sees the module's values (seed C04_g: the use
+# site's bound names stayed in force while the helper's body was resolved)
+def _hq(v):
+    return v + q
+def _hj(v):
+    return v * j + G_INT
 def _jet(pt, eta):
     return SimpleNamespace(pt=pt, eta=eta, tracks=JL([SimpleNamespace(pt=pt + 1), SimpleNamespace(pt=-pt)]))
 DATA = [SimpleNamespace(x=2, y=-1, name="s'q", jets=JL([_jet(3, 1), _jet(0, -2)])),
@@ -104,6 +111,9 @@ CASES = [
     ("lambda e: e.jets.Select(lambda v1, **q: v1.pt + G_INT + (0 if q else 1))", "ok"),
     ("lambda e: e.jets.Select(lambda q, /: q.pt + G_INT)", "ok"),
     ("lambda e: e.jets.Select(lambda v1, /, j=3: v1.pt + j + G_INT)", "ok"),
+    ("lambda q: _hq(q.x)", "ok"), ("lambda e: e.jets.Select(lambda j: _hj(j.pt))", "ok"),
+    ("lambda e: [_hq(q.pt) for q in e.jets]", "ok"), ("lambda j: (_hj(j.x), _hq(j.y))", "ok"),
+    ("lambda G_INT: _hj(G_INT.x)", "ok"),
     # non transportable
     ("lambda e: e.x in G_LIST", "refuse"), ("lambda e: (e.x, G_OBJ)", "refuse"),
     ("lambda e: G_DICT", "refuse"), ("lambda e: (e.x, G_TUP)", "refuse"),
